@@ -202,6 +202,52 @@ func (a *ssaAnalysis) eval(v ssa.Value, e *env, depth int) *sym {
 	return r
 }
 
+// structFromGlobal: a package-level variable of struct type (`var ownerRole = role{key: types.OwnerKey, ...}`) is
+// initialised by stores in the package's synthetic init function; its fields are what those stores put there.  A store
+// to it from any other function makes it unknown (the determinism scan reports such a write by itself).
+func (a *ssaAnalysis) structFromGlobal(g *ssa.Global, depth int) *sym {
+	st, ok := deref(g.Type()).Underlying().(*types.Struct)
+	if !ok || g.Pkg == nil {
+		return unknownSym
+	}
+	initFn := g.Pkg.Func("init")
+	out := &sym{kind: symStruct, fields: map[string]*sym{}}
+	empty := &env{params: map[*ssa.Parameter]*sym{}, free: map[*ssa.FreeVar]*sym{}}
+	for _, mem := range g.Pkg.Members {
+		fn, ok := mem.(*ssa.Function)
+		if !ok {
+			continue
+		}
+		fns := append([]*ssa.Function{fn}, fn.AnonFuncs...)
+		for _, f := range fns {
+			for _, b := range f.Blocks {
+				for _, ins := range b.Instrs {
+					stv, ok := ins.(*ssa.Store)
+					if !ok {
+						continue
+					}
+					if fa, ok := stv.Addr.(*ssa.FieldAddr); ok && fa.X == ssa.Value(g) {
+						if f != initFn {
+							return unknownSym
+						}
+						out.fields[st.Field(fa.Field).Name()] = a.eval(stv.Val, empty, depth+1)
+					} else if stv.Addr == ssa.Value(g) {
+						if f != initFn {
+							return unknownSym
+						}
+						if base := a.eval(stv.Val, empty, depth+1); base.kind == symStruct {
+							for k, v := range base.fields {
+								out.fields[k] = v
+							}
+						}
+					}
+				}
+			}
+		}
+	}
+	return out
+}
+
 func (a *ssaAnalysis) eval1(v ssa.Value, e *env, depth int) *sym {
 	switch x := v.(type) {
 	case *ssa.Parameter:
@@ -224,6 +270,11 @@ func (a *ssaAnalysis) eval1(v ssa.Value, e *env, depth int) *sym {
 	case *ssa.Global:
 		if x.Pkg != nil && x.Pkg.Pkg.Path() == a.typesPath && isKeyName(x.Name()) {
 			return &sym{kind: symKey, name: x.Name()}
+		}
+		if x.Pkg != nil && a.ours[x.Pkg] {
+			if _, isStruct := deref(x.Type()).Underlying().(*types.Struct); isStruct {
+				return a.structFromGlobal(x, depth)
+			}
 		}
 		return unknownSym
 	case *ssa.UnOp:
